@@ -637,7 +637,7 @@ class TopLevelVisitor(ast.NodeVisitor):
 
                 # The startline should also begin with the same triple quote
                 # Account for raw strings. Note f-strings cannot be docstrings
-                if startline.strip().startswith((trip, 'r' + trip)):
+                if re.match('[rRuU]?' + re.escape(trip), startline.strip()):
                     # Both conditions pass.
                     start = cand_start_
                     break
